@@ -25,6 +25,7 @@ FORBIDDEN = re.compile(
 
 sys.path.insert(0, HERE)
 import translate  # noqa: E402
+import genreg  # noqa: E402
 
 
 class Infra(Exception):
@@ -122,6 +123,7 @@ def build_and_audit(prop_files: list[str], leanchecker: bool = False) -> ProofSt
         except Exception as e:  # source no longer parses: nothing can be regenerated
             st.failed["translator"] = f"{type(e).__name__}: {e}"
             st.translate_info = {"problems": [str(e)], "fingerprints": {}}
+        genreg.main()
         rc, log = run(["lake", "build", "htdriver"], cwd=LEAN)
         st.build_log += log[-4000:]
         st.driver_ok = rc == 0 and os.path.exists(DRIVER)
